@@ -48,8 +48,8 @@ func runnerAt(goit, base string, T *Tables, tz int) *Runner {
 
 type fsStats struct {
 	CrashPoints, FaultPoints, Unreached, KillChecked, KillMismatch, Commands, Drift int
-	ByCmd                                                                             map[string]int
-	Samples                                                                           []any
+	ByCmd                                                                           map[string]int
+	Samples                                                                         []any
 }
 
 // fsEnumerate executes the events of one corpus trace; for every modifying goit command it enumerates
